@@ -339,12 +339,12 @@ public:
 
     virtual PTRef removeAuxVars(PTRef tr);
 
-    bool hasQuotableChars(std::string const & name) const;
-    bool isReservedWord(std::string const & name) const;
+    static bool hasQuotableChars(std::string const & name);
+    static bool isReservedWord(std::string const & name);
     bool isAmbiguousUninterpretedNullarySymbolName(std::string_view name) const {
         return term_store.isAmbiguousNullarySymbolName(name);
     };
-    std::string protectName(std::string const & name, bool isInterpreted) const;
+    static std::string protectName(std::string const & name, bool isInterpreted);
     std::string disambiguateName(std::string const & protectedName, SRef retSort, bool isNullary,
                                  bool isInterpreted) const;
     std::string protectName(SymRef sr) const { return protectName(getSymName(sr), getSym(sr).isInterpreted()); };
